@@ -187,5 +187,6 @@ CHECKS["C15"] = dict(
     level_text="ContainsTime equals own civil-date arithmetic (days-from-epoch algorithm, own month lengths / leap years; only the zone offset is taken from package time) for every spec and instant: start-inclusive/end-exclusive minutes, inclusive weekday/day/month/year ranges, negative days from the month's end, ranges beyond the month, leap day, DST transitions in both directions, half-hour zones, a skipped civil day; every accepted spec re-marshals to the same value. Gating on the real App: no delivery at muted flush ticks, deliveries at unmuted ones, mutedBy names in GET /alerts/groups.",
     level_note="'Empty field' = field absent. Instants outside the grids and zones outside the seven listed are not explored.",
     assumptions=E4_ASSUME + ["zone offsets come from the tz database shipped in the image (/usr/share/zoneinfo)"],
-    units=[dict(pkg="timeinterval", test="TestVerifC15", shards_quick=16, shards_thorough=16, budget_quick=100, budget_thorough=1500)],
+    units=[dict(pkg="timeinterval", test="TestVerifC15", shards_quick=16, shards_thorough=16, budget_quick=100, budget_thorough=1500),
+           dict(pkg="app", test="TestVerifC15App", shards_quick=16, shards_thorough=16, budget_quick=100, budget_thorough=1500)],
 )
